@@ -56,3 +56,25 @@ Example c22_history_nontrivial :
              SetClosed; Update IceClosed DtlsClosed])
   = [PcConnecting; PcConnected; PcDisconnected; PcClosed].
 Proof. reflexivity. Qed.
+
+(* ---- second tie to the source: the translated statements ----
+   Gen/GoConnState.v is regenerated from peerconnection.go by tools/go2coq
+   before every run of this check: the statements of updateConnectionState
+   that compute connectionState, with pc.isClosed.Load() as the parameter
+   closed.  For all integers (every value that is not a declared non-zero
+   constant reads as IceUnknown / DtlsUnknown) it IS pion_state. *)
+From Coq Require Import ZArith.
+From Verif Require Proofs.GenConnState Gen.GoConnState.
+Theorem c22_generated_model_agrees : forall (closed : bool) (i d : BinNums.Z),
+  GoConnState.updateConnectionState_connectionState closed i d
+  = GenConnState.cs_pcs_to_Z
+      (pion_state closed (GenConnState.cs_ice_of_Z i) (GenConnState.cs_dtls_of_Z d)).
+Proof. exact GenConnState.gen_conn_state_agrees. Qed.
+Print Assumptions c22_generated_model_agrees.
+
+Example c22_generated_nontrivial :
+  GoConnState.updateConnectionState_connectionState false 3%Z 3%Z = 3%Z /\
+  GoConnState.updateConnectionState_connectionState false 6%Z 3%Z = 5%Z /\
+  GoConnState.updateConnectionState_connectionState true 6%Z 3%Z = 6%Z /\
+  GenConnState.cs_ice_of_Z 3%Z = IceConnected.
+Proof. repeat split; reflexivity. Qed.
